@@ -110,6 +110,27 @@ def check(ctx: Ctx) -> None:
                           f"layout whitespace {fmt(toks)} is emitted although neither neighbour is a block tag",
                           witness=f"state {_state_text(step)}")
     ctx.count("transducer steps examined", n)
+    # the content token of a child is the child's content and nothing else: an operation applied to the text on its way out (a
+    # hanging indent for multi-line text, a re-wrap) puts whitespace inside inline content. Whether the content is escaped is
+    # C02 / C04's business and plays no part here.
+    from ..rendercheck import strip_names
+    nt = 0
+    for step in walk(m, block_in_inline=True):
+        ch = step["child"]
+        if ch.kind in META_KINDS or step["spec"]["outcome"] == "raise":
+            continue
+        if any(t[0] in ("OP", "CALL", "NONSTRING") for t in strip_names(step["spec"]["tokens"])):
+            continue
+        what = describe(step)
+        for r in step["rows"]:
+            if r.outcome == "raise" or not r.acc_ok:
+                continue
+            nt += 1
+            ops = [t for t in strip_names(r.tokens) if t[0] in ("OP", "CALL", "NONSTRING")]
+            ctx.check(not ops, "C05.text", what + " [content emitted as it is]", TL, what + " [content]",
+                      f"the child's content passes through a further operation on its way into the output ({fmt(r.tokens)}): characters "
+                      f"(indentation, line breaks) can be inserted inside inline content", witness=f"state {_state_text(step)}")
+    ctx.count("content tokens examined", nt)
     nf = 0
     for sc, hits in frames(m):
         ctx.require(bool(hits), f"no path of Tag.get_html_string covers frame scenario {sc!r}")
